@@ -47,6 +47,8 @@ ALREADY TRIED in earlier rounds (do NOT repeat these or close variants of them -
 
 This is round {rnd}: all of the changes listed above were eventually detected. Aim for changes that are harder to notice, and attack parts of the property statement that the list above has NOT touched yet (read the statement clause by clause and pick clauses without an entry above; also read the anchor files for code paths none of the entries touches). Good directions: (a) two cooperating sites that each look fine alone; (b) behaviour that depends on a multi-step sequence (several loads / several Process calls / a query between them); (c) inputs that combine two or three features (e.g. submodules + augments + deviations, groupings + choices + if-feature, typedef chains + unions + leafref, several revisions, rpc/action/notification input/output, leaf-lists with several defaults, anydata/anyxml, identityref typedefs, extensions, when/must decorations, min/max-elements, ordered-by, presence, unique, status); (d) boundaries (first/last element, empty collections, exactly-equal values, maximum values, very long or very deep inputs); (e) order dependence that only a rare iteration order or a particular declaration order exposes; (f) public API entry points and options that are rarely used (read the exported functions and fields of the anchor files).
 
+ALSO (separately from your two changes): while reading and probing, note any input for which the CLEAN, unmodified tree already fails the property as stated (a crash, a wrong result, an unreported error, an outcome that varies from run to run). Report up to three such observations at the end under the heading CLEAN-TREE OBSERVATIONS, each with the exact input (module texts / calls) and the exact output you saw when you ran it on the clean tree; only report what you actually ran. Do not build your two changes on them.
+
 Final answer: for each change, the one-sentence summary, what it needs to manifest, and the exact output lines showing suite-pass + demo-fail with the change and demo-pass without it. If you could only produce one valid change, say so plainly.
 """
     open(f'{wt}/TASK.md', 'w').write(text)
